@@ -145,14 +145,15 @@ class Decoder:
             for c in self.caches:
                 c.cache_clear()
 
-    def decode(self, frame: str, pid: int, item_no: int = 0) -> tuple[dict, dict]:
+    def decode(self, frame: str, pid: int, item_no: int = 0, dtm: Any = None) -> tuple[dict, dict]:
         """One decode of `frame` (a fresh Packet object at a fresh timestamp).  Returns (event, info)."""
         self.n += 1
         self.ndec += 1
+        given = dtm
         # a packet = frame text + its own timestamp (1F09/2249/313E payloads are relative to msg.dtm): all
         # packets of one history carry the same timestamp (an array and its elements are compared), the
         # same packet keeps it across repeats; the wall clock meanwhile jumps (JumpClock)
-        dtm = self.t0 + td(seconds=3607 * item_no)
+        dtm = given if given is not None else self.t0 + td(seconds=3607 * item_no)
         v, _s, _a0, _a1, _a2, code, _l, payload = gen.frame_fields(frame)
         e: dict[str, Any] = {"t": "dec", "p": pid, "ok": 0, "json": 0, "js": "", "code": code,
                              "b0": payload[0:2], "b1": payload[2:4], "b2": payload[4:6], "arr": 0,
@@ -275,6 +276,39 @@ def histories(tmp: str, workers: int) -> tuple[list[tuple], dict]:
 
 
 # --------------------------------------------------------------------------------------
+
+
+def _iso_decode(arg: tuple[str, int, str]) -> tuple[dict, dict]:
+    """Runs in a process forked from the (still clean) parent for this one packet: the decode nothing precedes."""
+    frame, pid, dtm_iso = arg
+    fakes.quiet_logging()
+    return Decoder().decode(frame, pid, dtm=dt.fromisoformat(dtm_iso))
+
+
+def time_sibling_oracle(frames: list[str], procs: int) -> dict[tuple[str, str], tuple[dict, dict]]:
+    """{(frame, dtm) -> isolated decode} for every frame at two timestamps; must run before the parent decodes
+    anything (every worker is forked afresh from the parent: maxtasksperchild=1)."""
+    import multiprocessing as mp
+
+    jobs = [(f, k, d) for f in frames for k, d in ((1, T_SIB[0]), (2, T_SIB[1]))]
+    with mp.get_context("fork").Pool(procs, maxtasksperchild=1) as pool:
+        res = pool.map(_iso_decode, jobs, chunksize=1)
+    return {(f, d): r for (f, _k, d), r in zip(jobs, res)}
+
+
+T_SIB = ("2026-03-01T08:00:00.000000", "2026-03-01T08:47:13.500000")
+
+
+def run_time_siblings(dec: Decoder, frame: str, oracle: dict) -> dict:
+    """The same frame received twice, 47 minutes apart (two different packets): each is decoded in the parent, in
+    between the other, and compared (clause b) with its decode in a process where nothing was decoded before."""
+    t1, t2 = (dt.fromisoformat(x) for x in T_SIB)
+    evs = [oracle[frame, T_SIB[0]][0], dec.decode(frame, 1, dtm=t1)[0], dec.decode(frame, 2, dtm=t2)[0],
+           oracle[frame, T_SIB[1]][0], dec.decode(frame, 1, dtm=t1)[0], dec.decode(frame, 2, dtm=t2)[0]]
+    item = {"np": 2, "rel": [], "ev": evs}
+    return {"item": item, "meta": {"frames": {"A": frame, "B": frame}, "time_siblings": list(T_SIB),
+                                   "hist": [["iso", "A"], ["dec", "A"], ["dec", "B"], ["iso", "B"], ["dec", "A"], ["dec", "B"]],
+                                   "rel": [], "infos": {"A": oracle[frame, T_SIB[0]][1]}, "real_burst": False}}
 
 
 def run_item(dec: Decoder, hist: tuple, frames: dict[str, str], rel: list[dict], real_burst: bool) -> dict:
@@ -431,8 +465,25 @@ def main(tier: str, replay: str | None) -> None:
 
         # ---- executions -------------------------------------------------------------------------
         t0 = time.time()
+        # time siblings first: their oracle needs a parent process that has not decoded anything yet
+        sib_frames: list[str] = []
+        seen_vc: set[tuple[str, str]] = set()
+        for g in gfs:
+            if (g.code, g.verb) not in seen_vc:
+                seen_vc.add((g.code, g.verb))
+                sib_frames.append(g.frame)
+        for f in cf:    # and one real frame of every verb/code the corpus has
+            ff = gen.frame_fields(f)
+            if (ff[5], ff[0], "corpus") not in seen_vc:
+                seen_vc.add((ff[5], ff[0], "corpus"))  # type: ignore[arg-type]
+                sib_frames.append(f)
+        oracle = time_sibling_oracle(sib_frames, max(2, b["workers"]))
+        stats["t_oracle"] = round(time.time() - t0, 1)
         dec = Decoder()
         recs: list[dict] = []
+        for f in sib_frames:
+            recs.append(run_time_siblings(dec, f, oracle))
+        src_count["time_sibling_items"] = len(sib_frames)
         bursts_left = b["real_bursts"]
         hi = 0
 
